@@ -314,3 +314,109 @@ def _compatible_order(leaf_syn, fams):
                 ready.sort()
     assert len(out) == len(fams), "leaf syntenies are not consistent"
     return out
+
+
+# ---------------------------------------------------------------------------
+# random valid mappings (constructive), names and colours
+# ---------------------------------------------------------------------------
+@st.composite
+def random_mapping(draw, inst):
+    """A valid species mapping built bottom-up: every internal node takes one
+    of the species that make a valid event with its children's species."""
+    m = {l: inst.los[l] for l in inst.oleaves}
+    for n in inst.ointernal_post:
+        l, r = inst.ochildren[n]
+        opts = [x for x in inst.snodes if inst.event3(x, m[l], m[r]) is not None]
+        m[n] = opts[draw(st.integers(0, len(opts) - 1))]
+    return m
+
+
+NAME_ALPHABET = "abcdefghijklmnopqrstuvwxyzABCDEFGHIJKLMNOPQRSTUVWXYZ0123456789_"
+
+
+def _word(alphabet, max_size):
+    # built from integer draws, not st.text: mixing text strategies with different alphabets at the
+    # same draw position makes the Hypothesis 6.168 shrinker raise "ValueError: <n> is not in list"
+    return st.lists(st.integers(0, len(alphabet) - 1), min_size=1, max_size=max_size).map(
+        lambda idx: "".join(alphabet[i] for i in idx)
+    )
+
+
+@st.composite
+def fresh_names(draw, count, alphabet=NAME_ALPHABET, max_size=8, reserved=("NoName",)):
+    names = draw(st.lists(_word(alphabet, max_size).filter(lambda s: s not in reserved),
+                          min_size=count, max_size=count, unique=True))
+    return names
+
+
+@st.composite
+def colours(draw, count, odds=(1, 3)):
+    """list of `count` entries: None or a 6-digit HTML colour."""
+    out = []
+    for _ in range(count):
+        if chance(draw, odds[0], odds[1]):
+            value = draw(st.integers(0, 0xFFFFFF))
+            out.append(("%06X" if draw(st.booleans()) else "%06x") % value)
+        else:
+            out.append(None)
+    return out
+
+
+def rename_case(case, omap, smap, fmap=None, ocol=None, scol=None):
+    """Apply name maps (and optional colour lists indexed by pre-order) to a
+    case dictionary and its private _mapping/_lab entries."""
+    from .plain import parse_newick
+
+    fmap = fmap or {}
+    ot, stt = parse_newick(case["object_tree"]), parse_newick(case["species_tree"])
+    if ocol:
+        for n in ot.nodes():
+            if ocol[n] is not None:
+                ot.features[n]["color"] = ocol[n]
+    if scol:
+        for n in stt.nodes():
+            if scol[n] is not None:
+                stt.features[n]["color"] = scol[n]
+    ot.name = [omap.get(x, x) for x in ot.name]
+    stt.name = [smap.get(x, x) for x in stt.name]
+    out = dict(case)
+    out["object_tree"] = ot.to_newick()
+    out["species_tree"] = stt.to_newick()
+    out["leaf_object_species"] = {omap.get(k, k): smap.get(v, v) for k, v in case["leaf_object_species"].items()}
+    f = lambda syn: [fmap.get(x, x) for x in syn]  # noqa: E731
+    if "leaf_syntenies" in case:
+        out["leaf_syntenies"] = {omap.get(k, k): f(v) for k, v in case["leaf_syntenies"].items()}
+    if "_mapping" in case:
+        out["_mapping"] = {omap.get(k, k): smap.get(v, v) for k, v in case["_mapping"].items()}
+    for key in ("_lab_o", "_lab_u"):
+        if key in case:
+            out[key] = {omap.get(k, k): f(v) for k, v in case[key].items()}
+    return out
+
+
+@st.composite
+def drawn_reconciliation(draw, max_obj=8, max_sp=8, max_fam=4, costs="free", random_names=True, colour=True,
+                         name_alphabet=NAME_ALPHABET, fam_alphabet=None, min_obj=1, maxcost=3):
+    """Input + valid mapping + valid ordered and unordered labellings, with
+    random unique node names and colour annotations."""
+    from .plain import Instance
+
+    case = draw(labelled_reconciliation_case(max_obj=max_obj, max_sp=max_sp, max_fam=max_fam, costs=costs,
+                                             maxcost=maxcost, min_obj=min_obj))
+    inst = Instance(case)
+    case["_mapping"] = draw(random_mapping(inst))
+    if random_names:
+        onames = draw(fresh_names(len(inst.onodes), name_alphabet))
+        snames = draw(fresh_names(len(inst.snodes), name_alphabet))
+        omap = dict(zip(inst.onodes, onames))
+        smap = dict(zip(inst.snodes, snames))
+        fams = sorted({f for s in case["leaf_syntenies"].values() for f in s})
+        fmap = {}
+        if fam_alphabet:
+            fnames = draw(fresh_names(len(fams), fam_alphabet, max_size=6))
+            fmap = dict(zip(fams, fnames))
+    else:
+        omap, smap, fmap = {}, {}, {}
+    ocol = draw(colours(len(inst.onodes))) if colour else None
+    scol = draw(colours(len(inst.snodes))) if colour else None
+    return rename_case(case, omap, smap, fmap, ocol, scol)
